@@ -755,6 +755,25 @@ type c16Target struct {
 // c16Case builds a case selected for order sensitivity and returns a digest
 // of everything observable from one run.
 func c16Source(r *rand.Rand) (src []byte, kind string) {
+	if r.Intn(12) == 0 {
+		// keys of one block that differ only in letter case or underscores and designate one field:
+		// which value wins / which key the error names must not vary
+		forms := [][]string{{"ab", "AB", "Ab", "aB"}, {"a_b", "A_B", "a_B", "A_b"}, {"s", "S"}, {"f", "F", "_f", "f_"}, {"ab", "AB", "a_b", "A_B", "ab_", "_AB"}}[r.Intn(5)]
+		var b strings.Builder
+		b.WriteString("def c16_target \"n\" { ")
+		for _, k := range r.Perm(len(forms)) {
+			switch r.Intn(4) {
+			case 0:
+				fmt.Fprintf(&b, "%s = \"v%d\"; ", forms[k], k)
+			case 1:
+				fmt.Fprintf(&b, "%s = %d.5; ", forms[k], k)
+			default:
+				fmt.Fprintf(&b, "%s = %d; ", forms[k], k)
+			}
+		}
+		b.WriteString("}\nbind c16_target -> struct")
+		return []byte(b.String()), "case_variant_keys"
+	}
 	switch r.Intn(7) {
 	case 0:
 		// two keys folding to one struct field, two faulty fields
@@ -935,7 +954,7 @@ func init() {
 		Level: "exploration",
 		Rule: "repetition monitor: each case (source + targets) is run R times in one process (R = 30 quick / 100 thorough; Go randomises map iteration per range statement, so repetition exercises iteration order) and once in fresh processes with GOMAXPROCS 1, 2 and 16 (different hash seeds); the digest of everything observable (Dump hash, diagnostics, output, blocks, binding, Unmarshal target and error text for a struct and a slice target, dump before/after Execute) must be identical. " +
 			"History variants: A, B, A (the second A equals the first); results of a run are mutated before the next run of the same Prog. Cases are selected for order sensitivity: several keys folding to one struct field, several named children of one type into one field, several faulty fields at once, many constants and identifiers, several diagnostics, plus generated programs. " +
-			"distinct = hash of source; non-trivial = at least 2 runs were compared The digest also contains: a run with statistics and disassembly; Dump into a failing writer followed by another Dump; ParseFile under a scripted reader with a read error behind a lexical failure and varying perturbation (error, log, whether a Prog came back); two same-named local struct types unmarshalled in one order here and the other order in one fresh process. A Prog parsed from a buffer that the caller overwrites afterwards must equal one parsed from an untouched buffer. Source kinds also: 40..100 faulty blocks bound to a slice.",
+			"distinct = hash of source; non-trivial = at least 2 runs were compared The digest also contains: a run with statistics and disassembly; Dump into a failing writer followed by another Dump; ParseFile under a scripted reader with a read error behind a lexical failure and varying perturbation (error, log, whether a Prog came back); two same-named local struct types unmarshalled in one order here and the other order in one fresh process. A Prog parsed from a buffer that the caller overwrites afterwards must equal one parsed from an untouched buffer. Source kinds also: 40..100 faulty blocks bound to a slice. Also: blocks whose keys differ only in letter case or underscores and designate one struct field (which value wins and which key an error names must not vary).",
 		Assumptions:   []string{"the digest renders maps with sorted keys, so only the library's own order dependence can show"},
 		MinNontrivial: 300,
 		Run: func(c *core.Ctx) {
